@@ -27,6 +27,8 @@ def std_types(V, roles, nft):
             kw["minvol"] = V * 1.3
         elif role == "remove_later":
             kw["minvol"] = V * 0.7
+        elif role in ("pair0", "pair1"):
+            kw["avgdiv"] = V * 0.6; kw["minvol"] = V * 0.3      # divides at iteration 0; a daughter (V/2) survives until it is shrunk
         elif role == "lumen":
             kw["gid"] = 2
         elif role == "nucleus":
@@ -35,22 +37,24 @@ def std_types(V, roles, nft):
     return cts
 
 
-def gen_case(rng, tag):
+def gen_case(rng, tag, forced_roles=None):
     n0, f = tissue.icosphere(2)
-    nc = rng.randint(2, 6)
+    nc = rng.randint(2, 6) if forced_roles is None else len(forced_roles)
     V = abs(tissue.signed_volume([[x * R for x in p] for p in n0], f))
-    roles = [rng.choice(["normal", "normal", "divide0", "divide_later", "remove0", "remove_later", "lumen"]) for _ in range(nc)]
-    if not any(r.startswith("remove") for r in roles) and rng.random() < 0.7:
+    roles = [rng.choice(["normal", "normal", "divide0", "divide_later", "remove0", "remove_later", "lumen"]) for _ in range(nc)] if forced_roles is None else list(forced_roles)
+    if forced_roles is not None:
+        pass
+    elif not any(r.startswith("remove") for r in roles) and rng.random() < 0.7:
         roles[rng.randrange(nc)] = rng.choice(["remove0", "remove_later"])
-    if not any(r.startswith("divide") for r in roles) and rng.random() < 0.7:
+    if forced_roles is None and not any(r.startswith("divide") for r in roles) and rng.random() < 0.7:
         roles[rng.randrange(nc)] = rng.choice(["divide0", "divide_later"])
     nft = [rng.choice([3, 3, 3, 2, 1]) for _ in range(nc)]
     cts = std_types(V, roles, nft)
-    gap = rng.choice([2.05, 2.2, 3.0])       # touching / near / apart (in radii between centres)
+    gap = rng.choice([2.05, 2.2, 3.0]) if forced_roles is None else 2.05      # touching / near / apart (in radii between centres)
     cells = []
     for i in range(nc):
         M = tissue.rnd_rot(rng)
-        pos = (i * gap * R, (i % 2) * 0.3 * R, 0.0) if rng.random() < 0.7 else ((i % 3) * gap * R, (i // 3) * gap * R, 0.0)
+        pos = (i * gap * R, (i % 2) * 0.3 * R, 0.0) if (rng.random() < 0.7 or forced_roles is not None) else ((i % 3) * gap * R, (i // 3) * gap * R, 0.0)
         cells.append((i, tissue.transform(n0, M, pos, (R, R, R)), f))
     niter = rng.choice([12, 16, 22])
     evs = []
@@ -59,6 +63,10 @@ def gen_case(rng, tag):
             evs.append((rng.choice([3, 6, 8]), i, 1.18))      # 1.18^3 = 1.64 V > 1.5 V: divides at the next multiple of 5
         if r == "remove_later":
             evs.append((rng.choice([2, 4, 7, 9]), i, 0.85))   # 0.85^3 = 0.61 V < 0.7 V: removed at the end of that iteration
+        if r in ("pair0", "pair1"):
+            # the two daughters adhere along the division interface; the one at list position 0 / 1 is shrunk below the minimum
+            # volume (0.5 V * 0.8^3 = 0.26 V < 0.3 V) while still within the adhesion range of its sister
+            evs.append((rng.choice([3, 6, 7]), 0 if r == "pair0" else 1, 0.8))
     p = tissue.params(dt=1e-7, damping=5e-10, T=1.0, S=1.0, lmin=7.5e-7, cut_adh=5e-7, cut_rep=5e-7, swap=0)
     line = tissue.fmt_tissue(p, cts, cells) + " RUN %d 1 %d 0 %s %d %s" % (niter, rng.randrange(10 ** 6), tag, len(evs), " ".join("%d %d %s" % (a, b, hx(c)) for a, b, c in evs))
     return dict(line=line, roles=roles, nft=nft, evs=evs, niter=niter)
@@ -101,7 +109,9 @@ def run(ck):
     impl = vlib.build_driver("solver", wrap_clock=True)
     model = vlib.ocaml_model()
     rng = random.Random(ck.seed * 8111 + 8)
-    cases = [gen_case(rng, "c08_%d" % i) for i in range(ncase)]
+    # first: populations that shrink to a single, still coupled survivor (at list position 0 and at position 1), and to a pair
+    forced = [("pair0",), ("pair1",), ("normal", "remove_later"), ("remove_later", "normal", "remove_later")]
+    cases = [gen_case(rng, "c08_f%d" % i, forced_roles=fr) for i, fr in enumerate(forced)] + [gen_case(rng, "c08_%d" % i) for i in range(ncase)]
     # run in parallel processes (each history is independent)
     from concurrent.futures import ThreadPoolExecutor
     def one(c):
